@@ -193,10 +193,36 @@ VF_ARR_INT(int64_t, int64_t, 1)
 VF_ARR_REAL(float, float, vf_h_f, "r4", vf_bits4)
 VF_ARR_REAL(double, double, vf_h_d, "r8", vf_bits8)
 
+/* registry of heap blocks the library handed to the caller as caller-owned (C06): at every marker the
+ * library asks the sanitizer allocator which of them are still allocated.  -1 = not built with ASan. */
+#define VF_MAX_OWNED 8192
+static void *vf_owned_ptr[VF_MAX_OWNED];
+static int vf_owned_n = 0;
+#ifdef __cplusplus
+extern "C"
+#endif
+int __sanitizer_get_ownership(const volatile void *p) __attribute__((weak));
+static void vf_own(void *p)
+{
+    if (vf_owned_n < VF_MAX_OWNED)
+        vf_owned_ptr[vf_owned_n++] = p;
+}
+static long vf_owned_live(void)
+{
+    long n = 0;
+    int i;
+    if (!__sanitizer_get_ownership)
+        return -1;
+    for (i = 0; i < vf_owned_n; i++)
+        if (__sanitizer_get_ownership(vf_owned_ptr[i]))
+            n++;
+    return n;
+}
+
 /* quiescent-point marker: the drivers call it between operations */
 static void vf_mark_impl(int k)
 {
-    fprintf(vf_fp(), "MARK %d live=%ld\n", k, vf_live_objects());
+    fprintf(vf_fp(), "MARK %d live=%ld blocks=%ld\n", k, vf_live_objects(), vf_owned_live());
     fflush(vf_fp());
 }
 
